@@ -24,7 +24,7 @@ RULE = ('task histories: 0-40 tasks, each ok / failing (Exception or BaseExcepti
         'more than ten seconds made of 3 s tasks; LINE-event yields in deep/task and deep/push; '
         'non-trivial = at least one task failed or was still running when flush started; distinct by canonical history')
 ASSUMPTIONS = ['tasks are shorter than flush\'s own 10 s per-task wait', 'a refused post-close submission may raise any exception type']
-REQUIRE = {'tasks_tracked': 2000, 'flushes_checked': 300, 'flush_with_running_failure': 80, 'sends_checked': 1500,
+REQUIRE = {'pushes_from_application_pool_threads': 100, 'tasks_tracked': 2000, 'flushes_checked': 300, 'flush_with_running_failure': 80, 'sends_checked': 1500,
            'failed_sends': 100, 'unconvertible': 100, 'post_close_submits': 200, 'yield_points': 2000,
            'submits_during_flush': 30, 'twin_handler_flushes': 40, 'backlog_flushes': 1, 'flushes_over_a_draining_queue': 8, 'tasks_submitting_during_flush': 2,
            'concurrent_second_flushes': 20, 'racing_submitters': 60,
@@ -534,6 +534,7 @@ def case_push(seed, out, spec):
 
     completed, completed_lock = [], threading.Lock()
     slow = {i: r.pick([0.005, 0.02, 0.05]) for i in range(n)}
+    use_pool = r.chance(0.4)
     grpc.channel.on_call = on_call
     pushers = {}
     errors = []
@@ -549,11 +550,20 @@ def case_push(seed, out, spec):
     yld = inject.yielder(str(seed) + 'p', p=0.3)
     with inject.LineInjector(lambda f: (os.sep + 'deep' + os.sep + 'task' + os.sep) in f or
                              (os.sep + 'deep' + os.sep + 'push' + os.sep) in f, yld) as inj:
-        ths = [threading.Thread(target=app_thread, args=(list(range(k, n, nthreads)),)) for k in range(nthreads)]
-        for t in ths:
-            t.start()
-        for t in ths:
-            t.join(30)
+        if use_pool:
+            # the application reaches its tracepoints on the threads of a thread pool of its own (which are named like
+            # the threads of any other pool, the agent's included): still application threads
+            import concurrent.futures
+            with concurrent.futures.ThreadPoolExecutor(max_workers=nthreads) as ex:
+                futs = [ex.submit(app_thread, list(range(k, n, nthreads))) for k in range(nthreads)]
+                for f in futs:
+                    f.result(30)
+        else:
+            ths = [threading.Thread(target=app_thread, args=(list(range(k, n, nthreads)),)) for k in range(nthreads)]
+            for t in ths:
+                t.start()
+            for t in ths:
+                t.join(30)
         flush_exc = None
         try:
             handler.flush()
@@ -570,7 +580,9 @@ def case_push(seed, out, spec):
         time.sleep(0.005)
     _close(handler)
     replay = replay_spec(spec, seed)
-    witness = {'kinds': kinds, 'app_threads': nthreads, 'flush_raised': repr(flush_exc), 'push_errors': errors[:3]}
+    witness = {'kinds': kinds, 'app_threads': nthreads, 'application_thread_pool': use_pool, 'flush_raised': repr(flush_exc), 'push_errors': errors[:3]}
+    if use_pool:
+        out.count('pushes_from_application_pool_threads', n)
     want_ok = sum(1 for k_ in kinds if k_ in ('ok', 'sendslow'))
     if flush_exc is None and not errors and done_at_return < want_ok:
         out.violation('flush:returned-early', 'flush() returned when %d of %d deliverable snapshots had been sent '
